@@ -1302,6 +1302,7 @@ def _join(ex, fn, args, kw, node):
 
 @builtin('str.format')
 def _format(ex, fn, args, kw, node):
+    ex.format_safety(ex.res(fn.self_val), len(args), set(kw or {}), node)
     ex.used_assumptions.add('A-FMT: str()/repr()/format of objects is total and opaque')
     return VStr(z3.String(ex.fresh_name('fmt')))
 
